@@ -207,3 +207,15 @@ package types
 //@ props C10 C09
 //@ trusted
 //@ ensures err == NoErr ==> timeout > 0 && len(providers) > 0 && (repeated ==> (repeatedFrequency == 0 || repeatedFrequency >= timeout) && (repeatedTotal == -1 || repeatedTotal >= 1))
+
+// ---------------------------------------------------------------- genesis validation (C19)
+//@ func ValidateGenesis
+//@ props C19
+//@ loop 0 invariant seen: 0 <= iter && iter <= len(data.Definitions)
+//@ loop 1 invariant seen: 0 <= iter && iter <= len(data.Bindings)
+//@ loop 2 invariant [C19] visited_keys_are_addresses: forall k Str :: {range_visited[k]} range_visited[k] ==> bech32Err(k) == NoErr
+//@ loop 3 invariant [C19] visited_contexts_are_importable: forall k Str :: {range_visited[k]} range_visited[k] ==> hexErr(k) == NoErr &&
+//@      mapGet_Map_Str_RequestContext(data.RequestContexts, k).State == 1 && mapGet_Map_Str_RequestContext(data.RequestContexts, k).BatchState == 1
+//@ ensures [C19] withdraw_address_keys_are_bech32_addresses_as_exported: err == NoErr ==> (forall k Str :: {mapHas_Map_Str_Bytes(data.WithdrawAddresses, k)} mapHas_Map_Str_Bytes(data.WithdrawAddresses, k) ==> bech32Err(k) == NoErr)
+//@ ensures [C19] contexts_are_paused_with_hex_ids: err == NoErr ==> (forall k Str :: {mapHas_Map_Str_RequestContext(data.RequestContexts, k)} mapHas_Map_Str_RequestContext(data.RequestContexts, k) ==> hexErr(k) == NoErr &&
+//@      mapGet_Map_Str_RequestContext(data.RequestContexts, k).State == 1 && mapGet_Map_Str_RequestContext(data.RequestContexts, k).BatchState == 1)
